@@ -121,6 +121,20 @@ func reg(m, p string, cons ...rtgen.ConsT) rtgen.RegT {
 	return rtgen.RegT{Method: m, Path: p, Cons: cons}
 }
 
+// uniqueTexts: no (method, pattern text) is registered twice (then the middleware of a CancelMid request can tell
+// from the matched pattern which registration's handler is next)
+func uniqueTexts(script []rtgen.RegT) bool {
+	seen := map[string]bool{}
+	for _, g := range script {
+		k := g.Method + " " + g.FullPath()
+		if seen[k] {
+			return false
+		}
+		seen[k] = true
+	}
+	return true
+}
+
 func fixed() []rtgen.CaseT {
 	G := "GET"
 	on := rtgen.EngineT{Compiled: true}
@@ -135,7 +149,14 @@ func fixed() []rtgen.CaseT {
 	mk := func(s []rtgen.RegT, m, p string, e rtgen.EngineT) rtgen.CaseT {
 		return rtgen.CaseT{Script: s, Req: rtgen.ReqT{Method: m, Path: p}, Eng: e}
 	}
+	api := []rtgen.RegT{reg(G, "/users/:id"), reg(G, "/users/:id/posts"), reg("POST", "/users/:id/posts"), reg(G, "/users/:id/posts/:pid"), reg(G, "/health"), reg(G, "/:tenant")}
 	return []rtgen.CaseT{
+		// cancelled by a global middleware after the match, before Next(): the route's handler does not run (either engine)
+		{Script: api, Req: rtgen.ReqT{Method: G, Path: "/users/7/posts", CancelMid: true}, Eng: on},
+		{Script: api, Req: rtgen.ReqT{Method: G, Path: "/health", CancelMid: true}, Eng: on},
+		{Script: api, Req: rtgen.ReqT{Method: G, Path: "/acme", CancelMid: true}, Eng: rtgen.EngineT{Compiled: true, Version: "v1"}},
+		// paths without a leading slash (a router behind http.StripPrefix): whatever they mean, both engines agree
+		mk(api, G, "users/7/posts", on), mk(api, G, "acme", on), mk(api, G, "users/7", on), mk(api, G, "health", on), mk(api, "POST", "users/7/posts/3", on),
 		mk(k11a, G, "/users/list", on), mk(k11a, G, "/users/7", on),
 		mk(k11b, G, "/users/", on), mk(k11b, G, "/users/7", on),
 		mk(k11c, G, "/1/2/3/4/5/6/7/8/9", on),
@@ -231,6 +252,13 @@ func main() {
 					script = append([]rtgen.RegT(nil), script...)
 					for k := warmAt; k < len(script); k++ {
 						script[k].Cons = nil
+						if script[k].MountSub > 0 { // the routes of a sub-router are shared by all its mounts
+							for j := range script {
+								if script[j].MountSub == script[k].MountSub {
+									script[j].Cons = nil
+								}
+							}
+						}
 					}
 				}
 			}
@@ -256,6 +284,14 @@ func main() {
 				oa, ob := rtgen.Observe(baseOf(c), ask), rtgen.Observe(c, ask)
 				fmt.Fprintln(w, emitObs(fmt.Sprintf("c11-%d-%d", a.Seed, i), c, ask, oa, ob, st))
 				i++
+				if uniqueTexts(script) && c.Overlap == nil && len(c.Prev) == 0 && oa.Ran >= 0 && ob.Ran >= 0 && oa.Status == 200 && !oa.Panic && !ob.Panic && r.Chance(1, 12) && i < a.N {
+					// a route answers: the same request once more, cancelled by a global middleware after the match,
+					// before Next() — the route's handler must not run, in either engine
+					cm := c
+					cm.Req.CancelMid = true
+					fmt.Fprintln(w, emit(fmt.Sprintf("c11-%d-%dm", a.Seed, i), cm, st))
+					i++
+				}
 				if c.Overlap == nil && oa.Ran < 0 && ob.Ran < 0 && !oa.Panic && !ob.Panic && r.Chance(1, 4) && i < a.N {
 					// nobody's route: the same request once more, its context already cancelled
 					c.Prev = append(c.Prev[:len(c.Prev):len(c.Prev)], c.Req)
